@@ -571,6 +571,111 @@ impl WorldGen {
         }
     }
 
+    /// Authorization / circuit-breaker probes: every message variant (with arguments that succeed for the
+    /// entitled caller where the state allows) by every principal, each in a transaction that is rolled back.
+    /// Value-moving calls that succeed are replayed behind a CircuitBreaker in the same rolled-back transaction.
+    pub fn probes(&mut self) {
+        let v = view(&self.w.sim);
+        let admin = v.admin.clone().unwrap_or_default();
+        let lst = self.s.lst();
+        let ch = v.cfg.protocol_chain_config.ibc_channel_id.clone();
+        let staker = v.cfg.native_chain_config.staker_address.to_string();
+        let collector = v.cfg.native_chain_config.reward_collector_address.to_string();
+        let hook_s = staking::helpers::derive_intermediate_sender(&ch, &staker, CHAIN_PREFIX).unwrap_or_default();
+        let hook_c = staking::helpers::derive_intermediate_sender(&ch, &collector, CHAIN_PREFIX).unwrap_or_default();
+        let nominee = v.st.pending_owner.as_ref().map(|a| a.to_string()).unwrap_or_else(|| self.s.users[0].clone());
+        let monitor = v.cfg.monitors.first().map(|a| a.to_string()).unwrap_or_else(|| addr(CHAIN_PREFIX, "monitor0", 20));
+        let mut principals = vec![
+            admin.clone(),
+            self.s.admin.clone(), // the original admin: a former admin after a hand-over
+            nominee,
+            monitor,
+            hook_s,
+            hook_c,
+            self.s.me.clone(),
+            self.s.users[1 % self.s.users.len()].clone(),
+            addr(CHAIN_PREFIX, "fresh", 20),
+        ];
+        principals.dedup();
+        let min = v.cfg.protocol_chain_config.minimum_liquid_stake_amount.u128();
+        let submitted = v.batches.iter().find(|b| b.status == milky_way::staking::BatchStatus::Submitted);
+        let refundable: Vec<u64> = v
+            .pkts
+            .iter()
+            .filter(|p| p.status != staking::state::ibc::PacketLifecycleStatus::Sent && p.receiver == staker)
+            .map(|p| p.sequence)
+            .collect();
+        let newval = addr(&self.s.val_prefix, "val-probe", 20);
+        let oldval = v.cfg.native_chain_config.validators.first().map(|a| a.to_string()).unwrap_or_default();
+        let d = |a: u128| format!("[{}:{}]", hs(D), a);
+        let mut variants: Vec<(String, String)> = vec![
+            (d(min + 1000), "stake - - -".to_string()),
+            (format!("[{}:{}]", hs(&lst), 10), "unstake".to_string()),
+            ("[]".to_string(), "submit".to_string()),
+            ("[]".to_string(), format!("addval {}", hs(&newval))),
+            ("[]".to_string(), format!("rmval {}", hs(&oldval))),
+            ("[]".to_string(), format!("xfer_own {}", hs(&self.s.users[0]))),
+            ("[]".to_string(), "accept_own".to_string()),
+            ("[]".to_string(), "revoke_own".to_string()),
+            ("[]".to_string(), format!("updcfg - - ({};-) - -", 777)),
+            ("[]".to_string(), "updcfg - - - [] 77".to_string()),
+            (d(5000), "rewards".to_string()),
+            ("[]".to_string(), "breaker".to_string()),
+            (
+                "[]".to_string(),
+                format!("resume {} {} {}", v.st.total_native_token.u128(), v.st.total_liquid_stake_token.u128(), v.st.total_reward_amount.u128()),
+            ),
+            ("[]".to_string(), "resume 5 7 9".to_string()),
+            ("[]".to_string(), "recover - - -".to_string()),
+            ("[]".to_string(), format!("recover - {} -", s_list(&refundable, |x| x.to_string()))),
+            ("[]".to_string(), format!("feewd {}", v.st.total_fees.u128().min(3))),
+        ];
+        if let Some(b) = submitted {
+            variants.push((d(b.expected_native_unstaked.map(|x| x.u128()).unwrap_or(1).max(1)), format!("unstaked {}", b.id)));
+        } else {
+            variants.push((d(5), format!("unstaked {}", v.pending)));
+        }
+        // time far enough for every deadline
+        let t = self.w.now_ns + 40 * 86_400 * 1_000_000_000;
+        let mut withdraws: Vec<(String, String)> = vec![];
+        for r in v.reqs.iter().take(3) {
+            withdraws.push((r.user.clone(), format!("withdraw {}", r.batch_id)));
+        }
+        let value_moving = ["stake", "unstake", "submit", "withdraw", "rewards", "unstaked"];
+        let mut run_probe = |g: &mut WorldGen, who: &str, funds: &str, variant: &str| {
+            let snap = clone_storage(&g.w.sim.deps.storage);
+            let toks: Vec<&str> = variant.split(' ').collect();
+            let line = format!("exec {} 1 {} {} {}", t, hs(who), funds, variant);
+            g.w.ops.push("tx_begin".to_string());
+            g.w.ops.push(line.clone());
+            let c = g.w.sim.execute(t, Some(1), who, p_list(funds, p_coin), parse_exec(&toks));
+            g.w.ops.push("tx_abort".to_string());
+            g.w.sim.deps.storage = clone_storage(&snap);
+            if c == Class::Ok && value_moving.contains(&toks[0]) {
+                // the same call behind the circuit breaker
+                let adm = view(&g.w.sim).admin.unwrap_or_default();
+                g.w.ops.push("tx_begin".to_string());
+                g.w.ops.push(format!("exec {} 1 {} [] breaker", t, hs(&adm)));
+                g.w.sim.execute(t, Some(1), &adm, vec![], parse_exec(&["breaker"]));
+                g.w.ops.push(line);
+                g.w.sim.execute(t, Some(1), who, p_list(funds, p_coin), parse_exec(&toks));
+                g.w.ops.push("tx_abort".to_string());
+                g.w.sim.deps.storage = snap;
+            }
+        };
+        for who in principals.iter() {
+            for (funds, variant) in variants.iter() {
+                run_probe(self, who, funds, variant);
+            }
+            for (_, wv) in withdraws.iter() {
+                run_probe(self, who, "[]", wv);
+            }
+        }
+        for (u, wv) in withdraws.iter() {
+            run_probe(self, u, "[]", wv);
+        }
+    }
+
     /// Read-only probes appended to the contract-level op stream.
     pub fn queries(&mut self) {
         let v = view(&self.w.sim);
